@@ -1025,12 +1025,19 @@ class Node:
         if not predicate:
             raise ValueError("Predicate is required (use copy() instead)")
 
+        stopped = False
+
         def _visit(parent: Node) -> bool:
             """Return True if any descendant returned True."""
+            nonlocal stopped
             remove_nodes = []
             must_keep = False
 
             for n in parent.children:
+                if stopped:
+                    # The scan was stopped: only keep what was accepted so far
+                    remove_nodes.append(n)
+                    continue
                 res = call_predicate(predicate, n)
                 if res in (None, False):  # Keep only if has a `true` descendant
                     if _visit(n):
@@ -1051,16 +1058,17 @@ class Node:
                     else:
                         remove_nodes.append(n)
                 elif isinstance(res, StopTraversal):
-                    raise res
+                    # Stop calling the predicate, but finish the removal of
+                    # all nodes that were not accepted (same result as
+                    # `filtered()`)
+                    stopped = True
+                    remove_nodes.append(n)
 
             for n in remove_nodes:
                 n.remove()
             return must_keep
 
-        try:
-            _visit(self)
-        except StopTraversal:
-            pass
+        _visit(self)
         return
 
     def from_dict(
